@@ -21,6 +21,7 @@ type c12Scen struct {
 	Trace      bool        `json:"trace"`
 	Reentrant  bool        `json:"reentrant_filter"`
 	Recover    bool        `json:"recover"`
+	Crowded    bool        `json:"service0_crowded"`
 	Rendezvous bool        `json:"first_request_of_client0_waits_for_first_of_client1"`
 	Preempt    int         `json:"preempt_permille"`
 	Svcs       []SvcSpec   `json:"services"` // Routes = initial routes followed by pool routes
@@ -43,7 +44,7 @@ type histOp struct {
 
 var c12Roots = []string{"/a", "/b", "/a/b", "/", "/c/{v}"}
 var c12Plain = []string{"/static/", "/h"}
-var c12Subs = []string{"/x", "/{id}", "/x/{id}", "/y", "", "/{id}/z", "/w/{rest:*}"}
+var c12Subs = []string{"/x", "/{id}", "/x/{id}", "/y", "", "/{id}/z", "/w/{rest:*}", "/p/{id}", "/q", "/r/{id}/s", "/t"}
 
 func genC12(x *Ctx) *c12Scen {
 	tp := x.Tape
@@ -63,8 +64,12 @@ func genC12(x *Ctx) *c12Scen {
 		subPerm := tp.Perm(2 * len(c12Subs)) // (path, method) pairs
 		nInit := 0
 		maxR, moreR := 5, 600
+		crowdedSvc := false
 		if i == 0 && tp.Chance(80) {
-			maxR, moreR = 14, 900 // a crowded service: more routes than any preallocated slice or small-table fast path
+			maxR, moreR = 22, 960 // a crowded service: more routes than any preallocated slice, batch or small-table fast path
+			crowdedSvc = true
+			sc.Crowded = true
+			sp.Dynamic = true
 		}
 		tp.Repeat(1, maxR, moreR, func(k int) {
 			rid++
@@ -77,8 +82,8 @@ func genC12(x *Ctx) *c12Scen {
 			}
 			sp.Routes = append(sp.Routes, r)
 		})
-		if !sp.Dynamic {
-			nInit = len(sp.Routes)
+		if !sp.Dynamic || crowdedSvc {
+			nInit = len(sp.Routes) // a crowded service starts with all its routes registered
 		}
 		sc.InitR[i] = nInit
 		if tp.G(3) != 0 {
@@ -142,6 +147,9 @@ func genC12(x *Ctx) *c12Scen {
 				// routes are owned by route id, not by service: two admin tasks may change different
 				// routes of the SAME service at the same time, and neither change may be lost
 				sp = sc.Svcs[tp.G(nSvc)]
+				if sc.Crowded && tp.Bool() {
+					sp = sc.Svcs[0]
+				}
 				sid = sp.ID
 				if !sp.Dynamic {
 					return
@@ -156,6 +164,9 @@ func genC12(x *Ctx) *c12Scen {
 					return
 				}
 				r := mine[tp.G(len(mine))]
+				if sc.Crowded && sid == 0 && len(mine) > 3 {
+					r = mine[tp.G(3)] // a route near the front: removing it shifts everything behind it
+				}
 				if present[r.ID] {
 					ops = append(ops, AdminOp{Kind: "unroute", Svc: sid, Route: r.ID})
 					present[r.ID] = false
@@ -180,6 +191,11 @@ func genC12(x *Ctx) *c12Scen {
 		tp.Repeat(1, maxReq, 600, func(int) {
 			sp := sc.Svcs[tp.G(nSvc)]
 			r := sp.Routes[tp.G(len(sp.Routes))]
+			if sc.Crowded && tp.G(3) != 0 {
+				// requests to routes far back in the crowded service, which nobody changes
+				sp = sc.Svcs[0]
+				r = sp.Routes[len(sp.Routes)-1-tp.G(minInt(8, len(sp.Routes)))]
+			}
 			p := Probe{Method: []string{r.Method, "GET", "POST", "PUT"}[tp.G(4)], Path: instantiate(FullPath(sp.Root, r.Path), tp.G(3))}
 			if tp.Chance(80) {
 				p.Path = "/nowhere/at/all"
